@@ -15,6 +15,13 @@ each with and without a loop of the function's own; case-totality (CaseOk) over 
 unknown name included) of enums of 1-3 (thorough: 1-4) variants x bindings x else x statement / expression x scrutinee.
 One program per case, expectation "accept" / "reject" derived by the rule; MC_ShapesFam emits the cases from KEYS and
 re-derives every recorded case from its key when it validates the observations (phase 2b).
+
+SyltShapesFam2 (TLA+) adds three families to phase 2b: (ord) the field / variant / totality rules (UseOk) on a value of a user
+type B reached through a member of a carrier type A whose type mentions B in every position (plain, function result / parameter,
+list, tuple, generic argument, nested) x every textual order of the declarations x provenance of the A value; (lpos) LoopControlOk
+on break / continue / ret at every syntactic site of a loop (blocks inside its CONDITION, body, closures, inner loops, after it) x
+what encloses the loop; (seq) sequences of 2-3 uses (cases with different arm sets, field reads / writes, constant indices) of one
+value, linked to it in every way the type checker links them - every use is judged on its own.
 """
 import json
 import os
@@ -60,8 +67,25 @@ def signature(rej):
 def fam_signature(rej):
     # flavours: word x purity x form, purity of the enclosing function (the loop context is in the replay, not the signature);
     # arm lists: class of the list (unknown / missing / repeat), enum size, kind of scrutinee
+    # declaration order: clause x position of B in the member type x which of A / B is declared first
+    # loop positions: word x class of the site (condition / body / closure ...) x purity x "is there a loop around L"
+    # sequences: kind of value x which use is the illegal one x how the uses are linked to the value
     i = rej["id"]
-    ctx = "any-loop-context" if rej["key"][0] == "flav" else i["ctx"].split("/")[0]
+    key = rej["key"]
+    fam = key[0]
+    if fam == "ord":
+        order = "A-before-B" if key[4].index("A") < key[4].index("B") else "B-before-A"
+        return "C05|ord-%s|member-%s|%s|%s" % (rej["clause"], key[2], order, rej["why"])
+    if fam == "lpos":
+        site = key[3]
+        cls = ("closure-in-" + site.split("-")[0]) if site.endswith("closure") else \
+            "loop-inside-condition" if site in ("cond-inner-cond", "cond-inner-body") else \
+            "condition" if site.startswith("cond-") else "after-loop" if site == "after" else "body"
+        around = "loop-around" if key[2] in ("loop-body", "loop-body-if") else "no-loop-around"
+        return "C05|lpos-%s-at-%s|%s|%s|%s" % (key[4], cls, i["shape"], around, rej["why"])
+    if fam == "seq":
+        return "C05|%s|linked-by-%s|any-length|%s" % (i["kind"], key[2], rej["why"])
+    ctx = "any-loop-context" if fam == "flav" else i["ctx"].split("/")[0]
     return "C05|%s|%s|%s|%s" % (i["kind"], i["shape"], ctx, rej["why"])
 
 
@@ -76,7 +100,7 @@ def fam_record_and_validate(wd, name, cases, maxv, full, env=None):
     e = {"MODE": "validate", "TRACE": tf, "MAXV": maxv}
     if full:
         e["FULL"] = "1"
-    v = vlib.tlc("MC_ShapesFam", wd=wd, env=e, tags=("REJECT",), workers=4, timeout=1500,
+    v = vlib.tlc("MC_ShapesFam", wd=wd, env=e, tags=("REJECT",), workers=4, timeout=1500, coverage=False,
                  out_file=os.path.join(wd, "tlc-%s.out" % name))
     rejects = list({p["rec"]: p for (_, p) in v.records}.values())
     return recs, v, rejects
@@ -87,17 +111,20 @@ def family_phase(ctx, wd, ev, verdicts, maxv, replay_case=None):
     if replay_case is not None:
         cases = [replay_case]
     else:
-        r = vlib.tlc("MC_ShapesFam", wd=wd, env={"MODE": "emit", "MAXV": maxv}, workers=4, timeout=1500,
+        # (no -coverage for this module: TLC's cost-model walk expands every operator reference of SyltShapesFam2 as a tree and
+        #  does not finish; the vacuity guards count states instead: one "start" and one "done" state per case)
+        r = vlib.tlc("MC_ShapesFam", wd=wd, env={"MODE": "emit", "MAXV": maxv}, workers=4, timeout=1500, coverage=False,
                      out_file=os.path.join(wd, "tlc-fam-emit.out"))
         vlib.require_tlc_ok(r, "MC_ShapesFam emit (universe sanity + emission)")
         seen = {}
         for (_, p) in r.records:
             seen.setdefault(json.dumps(p["key"]), p)
         cases = list(seen.values())
-        nflav = sum(1 for c in cases if c["key"][0] == "flav")
-        narms = len(cases) - nflav
-        if r.coverage.get("Emit", (0, 0))[1] < len(cases) or nflav < 5000 or narms < 4000:
-            vlib.tool_error("vacuity: families: %d flavour and %d arm cases emitted, Emit fired %s times" % (nflav, narms, r.coverage.get("Emit")))
+        nfam = {f: sum(1 for c in cases if c["key"][0] == f) for f in ("flav", "arms", "ord", "lpos", "seq")}
+        nflav, narms = nfam["flav"], nfam["arms"]
+        if r.distinct < 2 * len(cases) or nflav < 5000 or narms < 4000 or nfam["ord"] < 3000 or nfam["lpos"] < 500 or nfam["seq"] < 3000 \
+                or sum(nfam.values()) != len(cases):
+            vlib.tool_error("vacuity: families: %s cases emitted, %d distinct states" % (nfam, r.distinct))
         # the classes the clause is about are there: accepted total cases with a repeated arm, rejected cases with as many
         # arms as variants of which one is a repeat, and both verdicts for both purities of every flavour
         need = {"arms-repeat-accepted": lambda c: c["id"]["kind"] == "case-arms-repeat" and c["expect"] == "accept" and "/noelse/" in c["id"]["ctx"],
@@ -105,18 +132,30 @@ def family_phase(ctx, wd, ev, verdicts, maxv, replay_case=None):
                                                  and len(c["key"][2]) == c["key"][1],
                 "pu-flavour-rejected": lambda c: c["key"][0] == "flav" and c["key"][2] == "pu" and c["expect"] == "reject",
                 "pu-flavour-accepted": lambda c: c["key"][0] == "flav" and c["key"][2] == "pu" and c["expect"] == "accept",
-                "fn-flavour-rejected": lambda c: c["key"][0] == "flav" and c["key"][2] == "fn" and c["expect"] == "reject"}
+                "fn-flavour-rejected": lambda c: c["key"][0] == "flav" and c["key"][2] == "fn" and c["expect"] == "reject",
+                # declaration order: B after A / before A, in a function-result position, both verdicts
+                "ord-fn-result-A-first-rejected": lambda c: c["key"][0] == "ord" and c["key"][2].startswith("fn-ret") and c["key"][4].index("A") < c["key"][4].index("B") and c["expect"] == "reject",
+                "ord-fn-result-A-first-accepted": lambda c: c["key"][0] == "ord" and c["key"][2].startswith("fn-ret") and c["key"][4].index("A") < c["key"][4].index("B") and c["expect"] == "accept",
+                "ord-B-first-rejected": lambda c: c["key"][0] == "ord" and c["key"][4].index("B") < c["key"][4].index("A") and c["expect"] == "reject",
+                # loop positions: a word in the condition is rejected without, accepted with a loop around
+                "lpos-condition-rejected": lambda c: c["key"][0] == "lpos" and c["key"][3].startswith("cond-") and c["expect"] == "reject" and c["key"][4] != "ret",
+                "lpos-condition-accepted": lambda c: c["key"][0] == "lpos" and c["key"][3].startswith("cond-") and c["expect"] == "accept" and c["key"][4] != "ret",
+                # sequences: only a later use illegal / only the first / none
+                "seq-later-illegal": lambda c: c["key"][0] == "seq" and c["id"]["kind"].endswith("later-illegal") and c["expect"] == "reject",
+                "seq-first-illegal": lambda c: c["key"][0] == "seq" and c["id"]["kind"].endswith("first-illegal") and c["expect"] == "reject",
+                "seq-all-legal": lambda c: c["key"][0] == "seq" and c["id"]["kind"].endswith("all-legal") and c["expect"] == "accept"}
         for name, pred in need.items():
             if sum(1 for c in cases if pred(c)) < 20:
                 vlib.tool_error("vacuity: families: fewer than 20 cases of class %s" % name)
         ev.add("states", r.distinct)
         ev.add("transitions", r.generated)
-        ev.set(family_cases={"function-flavours": nflav, "arm-multisets": narms}, family_max_variants=maxv)
+        ev.set(family_cases={"function-flavours": nflav, "arm-multisets": narms, "declaration-order": nfam["ord"],
+                             "loop-positions": nfam["lpos"], "use-sequences": nfam["seq"]}, family_max_variants=maxv)
 
     recs, v, rejects = fam_record_and_validate(wd, "fam", cases, maxv, full=replay_case is None)
     vlib.require_tlc_ok(v, "MC_ShapesFam validate")
-    if v.coverage.get("Validate", (0, 0))[1] < len(recs):
-        vlib.tool_error("vacuity: families: Validate fired %s times for %d records" % (v.coverage.get("Validate"), len(recs)))
+    if v.distinct < 2 * len(recs):
+        vlib.tool_error("vacuity: families: %d distinct states for %d records (Validate did not fire for every record)" % (v.distinct, len(recs)))
     ngen = 0
     for rej in rejects:
         rec = recs[rej["rec"] - 1]
@@ -149,8 +188,10 @@ def family_phase(ctx, wd, ev, verdicts, maxv, replay_case=None):
                family_samples=[{"key": recs[i]["key"], "id": recs[i]["id"], "expect": recs[i]["expect"], "observed": recs[i]["obs"]["class"],
                                 "error_kinds": recs[i]["obs"]["kinds"]} for i in (0, len(recs) // 3, 2 * len(recs) // 3, len(recs) - 1)])
         # negative controls: (a) a compiler that answers the opposite on a seeded sample: every record must be rejected
+        # (sampled among the cases the real compiler answered as specified: flipping a wrong answer gives a right one)
         rnd = random.Random(ctx.seed + 1)
-        sub = rnd.sample(cases, 80)
+        wrong = {rej["rec"] for rej in rejects}
+        sub = rnd.sample([c for (ix, c) in enumerate(cases) if ix + 1 not in wrong], 80)
         _, nv, nrej = fam_record_and_validate(wd, "fam-neg-flip", sub, maxv, False, env={"C05_STUB": "flip"})
         vlib.require_tlc_ok(nv, "families: negative control (flip stub)")
         good = sum(1 for x in nrej if x["why"] == ("invalid-accepted" if x["expect"] == "reject" else "valid-rejected"))
@@ -162,14 +203,14 @@ def family_phase(ctx, wd, ev, verdicts, maxv, replay_case=None):
         btf = os.path.join(wd, "fam-neg-expect-trace.ndjson")
         vlib.write_ndjson(btf, bad)
         bv = vlib.tlc("MC_ShapesFam", wd=wd, env={"MODE": "validate", "TRACE": btf, "MAXV": maxv}, tags=("REJECT",), workers=1,
-                      out_file=os.path.join(wd, "tlc-fam-neg-expect.out"))
+                      coverage=False, out_file=os.path.join(wd, "tlc-fam-neg-expect.out"))
         if bv.ok:
             vlib.tool_error("negative control accepted: a family record with a corrupted expectation passed validation")
         # (c) a trace that misses a case must fail the completeness assumption
         mtf = os.path.join(wd, "fam-neg-missing-trace.ndjson")
         vlib.write_ndjson(mtf, recs[1:])
         mv = vlib.tlc("MC_ShapesFam", wd=wd, env={"MODE": "validate", "TRACE": mtf, "MAXV": maxv, "FULL": "1"}, tags=("REJECT",),
-                      workers=1, out_file=os.path.join(wd, "tlc-fam-neg-missing.out"))
+                      workers=1, coverage=False, out_file=os.path.join(wd, "tlc-fam-neg-missing.out"))
         if mv.ok:
             vlib.tool_error("negative control accepted: an incomplete family trace passed the completeness assumption")
         ev.add("negative_controls_rejected", len(nrej) + 2)
@@ -318,7 +359,11 @@ def run(ctx):
                 "SyltShapesFam (one program each, compiled without std, accepted ones loaded): function flavour x loop-carrying context x "
                 "word x position x own loop or not, and arm multiset (enums of 1-%d variants, <= variants+1 arms over the variants and one "
                 "unknown name, 3 orders) x bindings x else x statement/expression x scrutinee; non-trivial when the program is accepted where "
-                "the rule accepts, or gets past the parser where the rule rejects; distinct by key" % (pool, maxv),
+                "the rule accepts, or gets past the parser where the rule rejects; distinct by key. Plus every key of SyltShapesFam2: "
+                "(ord) carrier blob / enum x 14 positions of a user type B in the member type x B blob / enum / generic x every order "
+                "of the declarations x provenance x 5 uses; (lpos) 17 sites of a loop x 7 enclosing contexts x break / continue / ret x "
+                "purity; (seq) all pairs (and triples over a core set) of uses of an enum / generic enum / blob / generic blob / tuple "
+                "value x 12 links" % (pool, maxv),
            samples=[{"id": recs[i]["id"], "clause": recs[i]["clause"], "base": recs[i]["base"]["class"],
                      "planted": recs[i]["planted"]["class"], "planted_error_kinds": recs[i]["planted"]["kinds"]} for i in sample_ix],
            known_findings_hit=verdicts.known_hits)
